@@ -7,3 +7,7 @@
 ; applied[p] : a tuple-level change was (re-)applied to page object p by the recovery pass
 ;@ghost truncated Bool
 ; truncated : the log file has been emptied during this start-up
+; C07/C09: index state at start-up. slEmpty: the (non-persistent) skip list indexes of existing tables are still
+; empty; persStale: the persistent index kinds (B-tree, hash) are not attached to a valid on-disk state
+;@ghost slEmpty Bool
+;@ghost persStale Bool
